@@ -49,7 +49,7 @@ func (db *Database) SearchWithOptions(query string, options SearchOptions) []Sea
 	}
 
 	queryWords := strings.Fields(strings.ToLower(query))
-	results := make([]SearchResult, 0, utils.Min(len(db.Commands), options.Limit*constants.ResultsBufferMultiplier))
+	results := make([]SearchResult, 0, utils.BufferCap(len(db.Commands), options.Limit, constants.ResultsBufferMultiplier))
 
 	currentPlatform := getCurrentPlatform()
 
@@ -73,7 +73,7 @@ func (db *Database) SearchWithPipelineOptions(query string, options SearchOption
 	}
 
 	queryWords := strings.Fields(strings.ToLower(query))
-	results := make([]SearchResult, 0, utils.Min(len(db.Commands), options.Limit*constants.ResultsBufferMultiplier))
+	results := make([]SearchResult, 0, utils.BufferCap(len(db.Commands), options.Limit, constants.ResultsBufferMultiplier))
 
 	for i := range db.Commands {
 		cmd := &db.Commands[i]
